@@ -8,7 +8,8 @@ package harness
 //	configurations in which a blocked send can matter - and for the
 //	plain Close program with every consumer.
 //
-// thorough: bound 2 on the whole product, bound 3 on the consumer-less part.
+// thorough: bound 2 on the whole product, bound 3 on the consumer-less part (with
+// state-key pruning), then an unbounded pruned pass with a time budget per scenario.
 func ctlJobs(tier string) []Job {
 	var jobs []Job
 	caps := []int{-1, 1, 4}
@@ -22,11 +23,20 @@ func ctlJobs(tier string) []Job {
 				for _, capa := range caps {
 					small := cons == "none" || (c == "close" && (cons == "events" || cons == "errors"))
 					if tier == "thorough" {
-						// unbounded: every interleaving, made finite by global-state-key pruning (the oracles of
-						// C05/C06/C13 are end-state and per-thread, which is what the key preserves)
-						jobs = append(jobs, Job{Family: "ctl", Bound: -1, Prune: true,
-							Params: map[string]any{"hist": h, "c": c, "ctl": c, "cons": cons, "cap": capa}})
-						_ = small
+						// bound 2 everywhere, 3 where nothing (or one channel with a plain Close) is consumed; revisits of
+						// a global state with no fewer preemptions are cut (state-key pruning: the oracles of C05/C06/C13
+						// are end-state and per-thread, which is what the key preserves)
+						b := 2
+						if small {
+							b = 3
+						}
+						jobs = append(jobs, Job{Family: "ctl", Bound: b, Prune: true,
+							Params: map[string]any{"hist": h, "ctl": c, "cons": cons, "cap": capa}})
+						// then, as far as the time allows: no preemption bound at all
+						if capa == -1 && cons != "errors" && cons != "both-stop2" {
+							jobs = append(jobs, Job{Family: "ctl", Bound: -1, Prune: true, Deepening: true, MaxSeconds: 10,
+								Params: map[string]any{"hist": h, "ctl": c, "cons": cons, "cap": capa}})
+						}
 						continue
 					}
 					if c != "close" && (capa == 4 || capa == 1 && cons != "none" || cons == "both-stop2") {
@@ -47,8 +57,19 @@ func ctlJobs(tier string) []Job {
 const ctlRule = "E1: every schedule (thread interleaving, select-arm pick, kernel-read placement) of each closed scenario {history leaving events/errors pending} x {control program} x {consumer configuration} x {Events capacity}, up to the preemption bound, run on the instrumented real code against the real kernel; a state is one maximal execution (distinct choice sequence), a transition is one scheduler step (one synchronisation operation or syscall of the real code)"
 
 func init() {
+	// sequential histories whose only oracle here is "every call returned" (a reader stuck while holding the
+	// mutex shows as a WatchList that never returns): moves with and without stored cookies, in bursts
+	c05seq := func(tier string) []Job {
+		hs := [][]string{
+			{"mv w/o/p w/d/p", "mv w/d/p w/d/q", "mv w/d/a w/d/c"},
+			{"mv w/o/p w/d/p ;; mv w/d/p w/d/q ;; mv w/d/a w/d/c", "R w/d", "A w/d"},
+			{"mv w/d/a w/o/a ;; mv w/d/b w/o/b", "mv w/o/a w/d/a", "mv w/d/a w/d/c"},
+			{"mv w/f w/g ;; mv w/o/p w/d/p", "touch w/f ;; A w/f", "mv w/d/p w/o/p"},
+		}
+		return chunk(map[string]any{"fix": "std", "init": []string{"A w/d", "A w/f"}}, hs, nil, 1)
+	}
 	Checks["C05"] = &CheckDef{Prop: "C05", Technique: "stateless model checking of the real code: preemption-bounded exhaustive schedule enumeration under a cooperative scheduler; oracle = no API call left blocked in any maximal execution",
-		Rule: ctlRule, Jobs: ctlJobs,
+		Rule: ctlRule, Jobs: func(tier string) []Job { return append(c05seq(tier), ctlJobs(tier)...) },
 		Assume: []string{"sequentially consistent interleavings at synchronisation points", "kernel inotify is deterministic for a sequential syscall order"}}
 	Checks["C06"] = &CheckDef{Prop: "C06", Technique: "stateless model checking of the real code: preemption-bounded exhaustive schedule enumeration; oracle = channel-protocol invariants of the shim (no send on/close of closed channel), channels closed and reader gone once Close returned, post-close API inert",
 		Rule: ctlRule, Jobs: ctlJobs,
